@@ -67,6 +67,10 @@ def wrap_stmt(rnd, expr, depthvar):
         return "to_string(", ")", [("Fun_Call", 0)]
     if k < 0.85:
         return "if (true) { ", " }", []
+    if k < 0.89:
+        # a statement call (value unused) inside a loop body, not the first statement: the optimizer rebuilds exactly these nodes
+        return rnd.choice(["while (true) { t += 1; ", "for (var k%d = 0; k%d < 1; ++k%d) { t; t += 1; " % ((rnd.randint(0, 99),) * 3), "while (t > -5) { var w = t;\n    "]), \
+               rnd.choice(["; break }", ";\n  break\n  }", " ; t = -9; break }"]), []
     if k < 0.93:
         return "var q%d = 1 + " % rnd.randint(0, 999), " + 2", []
     return "to_string(to_string(", "))", [("Fun_Call", 10), ("Fun_Call", 0)]
